@@ -51,6 +51,9 @@ const budget = 20 * time.Second
 
 var quiet, loud *ulog.Logger
 
+// exitEnd: OnExit callbacks that panic / Goexit (off by default, see checks/c16.py)
+var exitEnd bool
+
 // opts: manager / server options; drawn by the plan's init line (TLC) or by the seeded generator
 type opts struct {
 	Wt, Rt int  // write / read timeout in ms (zero and negative values are passed on as they are); dflt = library default
@@ -216,6 +219,41 @@ func errOf(kind string) error {
 		return e
 	}
 	return errIO
+}
+
+// endings: the ways a callback can end other than by returning - a panic with a value of any kind
+// (the module says go 1.19: recover() returns nil for panic(nil) and for a nil error) or
+// runtime.Goexit.  Frame byte 0x10+i makes the read handler end with endings[i].
+var endings = []string{"string", "error", "struct", "int", "typednil", "nil", "nilerr", "goexit"}
+
+func endWith(kind string) {
+	switch kind {
+	case "error":
+		panic(errors.New("handler panics with an error"))
+	case "struct":
+		panic(struct{ Code int }{7})
+	case "int":
+		panic(42)
+	case "typednil":
+		panic((*kz)(nil))
+	case "nil":
+		panic(nil)
+	case "nilerr":
+		var err error
+		panic(err)
+	case "goexit":
+		runtime.Goexit()
+	}
+	panic("scripted handler panic")
+}
+
+func endingIndex(kind string) int {
+	for i, k := range endings {
+		if k == kind {
+			return i
+		}
+	}
+	return 0
 }
 
 type cmd struct {
@@ -395,6 +433,7 @@ type ssn struct {
 	reentDone chan struct{} // the Read handler has made and recorded its call
 	exitSend  bool          // OnExit calls Send
 	exitClose bool          // OnExit calls Close
+	exitEnd   string        // OnExit ends this way instead of returning (endings; "" = returns)
 	// every slice handed to Send, as handed over, and a private copy: Send has no business writing to it
 	sent, sentCopy [][]byte
 	accBytes       int   // bytes accepted from the driver's Sends
@@ -453,6 +492,9 @@ func (h *shandler) Read(s *stcp.Session) error {
 	if i := int(b[0]) - 0x80; i >= 0 && i < len(sentinelNames) {
 		return sentinels[sentinelNames[i]]
 	}
+	if i := int(b[0]) - 0x10; i >= 0 && i < len(endings) {
+		endWith(endings[i])
+	}
 	switch b[0] {
 	case 'P':
 		panic("scripted handler panic")
@@ -499,6 +541,9 @@ func (h *shandler) OnExit(s *stcp.Session) {
 		h.reClose(x, s)
 	}
 	atomic.AddInt32(&x.exits, 1)
+	if x.exitEnd != "" {
+		endWith(x.exitEnd) // the exit callback itself ends by a panic / Goexit (flag -exitend)
+	}
 }
 
 // the manager's handler in worlds whose sessions carry their own (UpdateHandler): it must never be
@@ -543,6 +588,9 @@ func newWorld(w *tr.W, rng *rand.Rand, o opts, n int, own, useDo, empty bool, sr
 	for _, x := range wd.ss {
 		if wd.reent {
 			x.exitSend, x.exitClose = rng.Intn(2) == 0, rng.Intn(2) == 0
+			if exitEnd {
+				x.exitEnd = endings[rng.Intn(len(endings))]
+			}
 		}
 	}
 	cerr := make([]bool, n)
@@ -863,8 +911,10 @@ func (wd *world) step1(a act, rng *rand.Rand) bool {
 		x.sent, x.sentCopy = append(x.sent, bs), append(x.sentCopy, append([]byte{}, bs...))
 		sess := wd.session(x)
 		times := 1
-		if rng.Intn(12) == 0 {
-			times = 2 // the very same slice handed over twice
+		if rng.Intn(12) == 0 && !wd.armed() {
+			// the very same slice handed over twice (not while a deadline failure is armed: it would
+			// happen between the two calls and be recorded after them)
+			times = 2
 		}
 		for ; times > 0; times-- {
 			r := "ok"
@@ -927,7 +977,8 @@ func (wd *world) step1(a act, rng *rand.Rand) bool {
 				m.b = 'C'
 			}
 		case "panic":
-			m.b = 'P'
+			m.b = byte(0x10 + endingIndex(a.K)) // a.K: the kind of the panic value / Goexit
+			rec["k"] = endings[endingIndex(a.K)]
 		case "rfault":
 			rec["k"] = a.K
 			switch a.K {
@@ -1107,7 +1158,7 @@ func randPlan(rng *rand.Rand, n, steps int, empty bool) []act {
 		case x < 97:
 			a = act{Op: "wdl"}
 		default:
-			a = act{Op: "panic"}
+			a = act{Op: "panic", K: endings[rng.Intn(len(endings))]}
 		}
 		a.S, a.Hold = s, hold
 		if len(out) < n && rng.Intn(2) == 0 {
@@ -1263,6 +1314,9 @@ func (h *fhandler) Read(s *stcp.Session) error {
 	var b [1]byte
 	if err := s.Read(b[:]); err != nil {
 		return err
+	}
+	if i := int(b[0]) - 0x10; i >= 0 && i < len(endings) {
+		endWith(endings[i])
 	}
 	switch b[0] {
 	case 'P':
@@ -1589,8 +1643,9 @@ func (fw *fworld) issue(x *fsess, how string) {
 		x.cl.mu.Unlock()
 		x.cl.c.Close()
 	case "panic":
-		fw.fire(tr.E{"op": "panic", "s": x.id})
-		x.cl.write([]byte{'P'})
+		k := x.id % len(endings) // the kind of the panic value / Goexit
+		fw.fire(tr.E{"op": "panic", "s": x.id, "k": endings[k]})
+		x.cl.write([]byte{byte(0x10 + k)})
 	case "herr":
 		fw.fire(tr.E{"op": "rfault", "s": x.id, "k": "herr"})
 		x.cl.write([]byte{'E'})
@@ -1919,6 +1974,7 @@ func main() {
 	nbulk := flag.Int("nbulk", 4, "bulk-transfer worlds over real TCP")
 	racef := flag.String("race", "race.ndjson", "race-round traces")
 	nrace := flag.Int("nrace", 0, "race rounds: number of sessions whose two loops leave at the same moment")
+	flag.BoolVar(&exitEnd, "exitend", false, "exit callbacks end by panic / Goexit in worlds with re-entrant OnExit")
 	flag.Parse()
 	rng := rand.New(rand.NewSource(*seed))
 	quiet = ulog.NewSimpleLogger("error")
